@@ -54,6 +54,10 @@ type vfChunkConn struct {
 	stalls     map[int]bool
 	rdl        time.Time
 	stallFired int
+	// writeGate: the first Write call waits for this channel before it puts its bytes on the wire (a peer whose
+	// receive window is closed for a while); later calls go through at once, as concurrent writes to a socket would
+	writeGate   chan struct{}
+	gateEntered chan struct{} // closed when the first Write has arrived at the gate
 }
 
 func (c *vfChunkConn) Read(p []byte) (int, error) {
@@ -129,6 +133,19 @@ func (c *vfChunkConn) Read(p []byte) (int, error) {
 }
 
 func (c *vfChunkConn) Write(p []byte) (int, error) {
+	c.mu.Lock()
+	g := c.writeGate
+	c.writeGate = nil
+	c.mu.Unlock()
+	if g != nil {
+		if c.gateEntered != nil {
+			close(c.gateEntered)
+		}
+		select {
+		case <-g:
+		case <-time.After(2 * time.Second): // never hold a caller for good
+		}
+	}
 	c.mu.Lock()
 	defer c.mu.Unlock()
 	if c.closed {
@@ -645,6 +662,14 @@ func TestVerifC14(t *testing.T) { //nolint:cyclop,maintidx
 			rng := e.rng(i, "tcppacketconn-write")
 			wb := []int{0, 1 << 20, 1 << 22}[rng.IntN(3)]
 			cc := &vfChunkConn{remote: &net.TCPAddr{IP: net.IPv4(10, 9, 1, 5), Port: 1000 + rng.IntN(60000)}, blockEOF: true, eofCh: make(chan struct{})}
+			// one history in four: a small write buffer and a peer that takes nothing for a while, so that the buffer
+			// fills up and WriteTo has to refuse packets; what it accepted still reaches the wire in order
+			var gate chan struct{}
+			if rng.IntN(4) == 0 {
+				wb = 9000 + rng.IntN(30000)
+				gate = make(chan struct{})
+				cc.writeGate, cc.gateEntered = gate, make(chan struct{})
+			}
 			tp := newTCPPacketConn(tcpPacketParams{ReadBuffer: 1, WriteBuffer: wb, LocalAddr: &net.TCPAddr{IP: net.IPv4(10, 0, 0, 1), Port: 7000}, Logger: vfQuietLogger().NewLogger("ice")})
 			if err := tp.AddConn(cc, nil); err != nil {
 				r.violation("harness:addconn", err.Error(), nil)
@@ -660,8 +685,14 @@ func TestVerifC14(t *testing.T) { //nolint:cyclop,maintidx
 				pkts = append(pkts, bytes.Repeat([]byte{byte(l)}, l))
 			}
 			rng.Shuffle(len(pkts), func(a, b int) { pkts[a], pkts[b] = pkts[b], pkts[a] })
+			if gate != nil {
+				for k := 0; k < 6; k++ { // enough to overflow the small buffer while the peer is stalled
+					pkts = append(pkts, bytes.Repeat([]byte{byte(0xA0 + k)}, 4000+rng.IntN(4193)))
+				}
+			}
 			var accepted [][]byte
 			lens := []int{}
+			refused := 0
 			for _, p := range pkts {
 				if len(p) == 0 {
 					continue // an empty write is not representable in the packet buffer
@@ -670,12 +701,33 @@ func TestVerifC14(t *testing.T) { //nolint:cyclop,maintidx
 				if err == nil && n == len(p) {
 					accepted = append(accepted, p)
 					lens = append(lens, len(p))
+					if gate != nil && len(accepted) == 1 {
+						// the buffered writer takes the first packet and gets stuck on the stalled peer; everything
+						// else queues up behind it
+						select {
+						case <-cc.gateEntered:
+						case <-time.After(5 * time.Second):
+						}
+					}
+				} else {
+					refused++
+				}
+			}
+			if gate != nil {
+				close(gate) // the peer takes data again
+				if refused > 0 {
+					r.count("c14_write_histories_with_full_buffer", 1)
 				}
 			}
 			// a final sentinel packet: the buffered writer is one goroutine working in order, so once the sentinel's frame
 			// is on the wire everything accepted before it has been dealt with
 			sentinel := []byte(fmt.Sprintf("END-%d", i))
-			if n, err := tp.WriteTo(sentinel, cc.RemoteAddr()); err != nil || n != len(sentinel) {
+			sn, serr := tp.WriteTo(sentinel, cc.RemoteAddr())
+			for dl := time.Now().Add(10 * time.Second); gate != nil && serr != nil && time.Now().Before(dl); {
+				time.Sleep(50 * time.Microsecond) // the small buffer is still draining
+				sn, serr = tp.WriteTo(sentinel, cc.RemoteAddr())
+			}
+			if serr != nil || sn != len(sentinel) {
 				r.inconclusive(1)
 				_ = tp.Close()
 				_ = cc.Close()
@@ -690,12 +742,12 @@ func TestVerifC14(t *testing.T) { //nolint:cyclop,maintidx
 				cc.mu.Lock()
 				wire = append([]byte{}, cc.written.Bytes()...)
 				cc.mu.Unlock()
-				if bytes.HasSuffix(wire, sentFrame) {
+				if bytes.HasSuffix(wire, sentFrame) || len(wire) >= len(want) {
 					break
 				}
 			}
 			r.eval(1)
-			if !bytes.HasSuffix(wire, sentFrame) {
+			if !bytes.HasSuffix(wire, sentFrame) && len(wire) < len(want) {
 				r.inconclusive(1) // the writer never reached the sentinel: no verdict on order or loss
 				_ = tp.Close()
 				_ = cc.Close()
@@ -993,6 +1045,37 @@ func vfC14Loopback(e *vfEnv, r *vfResult, idx int) {
 
 		return
 	}
+	if sc, _ := srvConn.Load().(net.Conn); sc != nil && idx%10 == 3 {
+		// a packet that does not fit the 16-bit frame / the receive MTU written to the active side: an error or the
+		// closure of the stream, never a frame the application did not send (a truncated copy, say)
+		big := make([]byte, 8193+rng.IntN(65535-8193+1))
+		for j := range big {
+			big[j] = byte(j*13 + 5) //nolint:gosec
+		}
+		_, werr := ac.WriteTo(big, nil)
+		wait := 5 * time.Second
+		if werr != nil {
+			wait = 300 * time.Millisecond
+		}
+		_ = sc.SetReadDeadline(time.Now().Add(wait))
+		buf := make([]byte, 70000)
+		n, rerr := readStreamingPacket(sc, buf)
+		var ne net.Error
+		switch {
+		case rerr == nil:
+			r.violation("active-oversize-fabricated", fmt.Sprintf("a %d-byte packet was written to activeTCPConn (WriteTo error: %v); the peer then received a %d-byte frame nobody sent (a prefix of the oversized packet: %v)", len(big), werr, n, n <= len(big) && bytes.Equal(buf[:n], big[:n])), map[string]any{"idx": idx, "len": len(big), "received": n})
+
+			return
+		case errors.As(rerr, &ne) && ne.Timeout():
+			if werr == nil {
+				r.count("loopback_oversize_neither_error_nor_closure_within_5s_not_judged", 1)
+			} else {
+				r.count("loopback_oversize_write_refused", 1)
+			}
+		default:
+			r.count("loopback_oversize_stream_closed", 1)
+		}
+	}
 	r.eval(1)
 	r.count("loopback_sessions", 1)
 	r.distinct(fmt.Sprintf("loopback/%d/%d", len(toClient)/4, len(toServer)/4))
@@ -1181,6 +1264,22 @@ func vfC14MuxFirstFrame(e *vfEnv, r *vfResult, idx int) { //nolint:cyclop
 		r.count("c14_mux_hostile_first_frames", 1)
 
 		return
+	}
+	if rng.IntN(2) == 0 {
+		// a second connection (another ufrag, another peer) is accepted and handled before anybody has read the first
+		// message of the first one: what the first connection queued must not change
+		m2, err := stun.Build(stun.BindingRequest, stun.TransactionID, stun.NewUsername(fmt.Sprintf("other%04d:peer", idx%10000)), stun.NewSoftware(strings.Repeat("o", 1+rng.IntN(300))))
+		if err == nil {
+			stream2, _ := vfC14Frame([][]byte{m2.Raw, []byte("second connection")})
+			cc2 := &vfChunkConn{stream: stream2, remote: &net.TCPAddr{IP: net.IPv4(10, 8, byte(rng.IntN(250)), 4), Port: 1000 + rng.IntN(60000)}}
+			if pn := vfRecover(func() { mux.handleConn(cc2) }); pn != "" {
+				r.violation("mux-first-frame-panic", pn, wit)
+
+				return
+			}
+			wit["second_connection_before_first_read"] = true
+			r.count("c14_mux_second_connection_before_first_read", 1)
+		}
 	}
 	pc, err := mux.GetConnByUfrag(ufrag, false, net.IPv4(10, 0, 0, 1))
 	if err != nil {
